@@ -120,6 +120,13 @@ def expired (now : Nat) (deadline : Int) : Bool :=
 def rej (code : String) {α : Type} : Except Err α := .error (.reject code)
 def pnc (why : String) {α : Type} : Except Err α := .error (.panic why)
 
+/-- `BurnCoins`: "insufficient funds" if the holder lacks the coins; the supply update
+(`supply.Sub`) panics on a negative result -/
+def burnCk (b : Bank) (src : Addr) (d : Denom) (n : Nat) : Except Err Bank :=
+  match b.burn src d n with
+  | none => rej "sdk/5"
+  | some b' => if b.supplyOf d < n then pnc "negative supply" else .ok b'
+
 /-- zero coins are dropped by `sdk.NewCoins` -/
 def coins (l : CoinList) : CoinList := l.filter fun c => c.2 != 0
 
@@ -234,9 +241,9 @@ def deductFee (s : State) (sender : Addr) : Except Err State :=
       match b1.send modAddr fcAddr s.params.pcfDenom (s.params.pcfAmt * s.params.tax / D) with
       | none => rej "sdk/5"
       | some b2 =>
-        match b2.burn modAddr s.params.pcfDenom (s.params.pcfAmt - s.params.pcfAmt * s.params.tax / D) with
-        | none => rej "sdk/5"
-        | some b3 => .ok { s with bank := b3 }
+        match burnCk b2 modAddr s.params.pcfDenom (s.params.pcfAmt - s.params.pcfAmt * s.params.tax / D) with
+        | .error e => .error e
+        | .ok b3 => .ok { s with bank := b3 }
 
 /-- mint `m` shares of pool `n` to the sender on top of bank `b`; the response is the minted coin -/
 def minted (s : State) (b : Bank) (sender : Addr) (n m : Nat) : State × CoinList :=
@@ -304,9 +311,9 @@ def stepAdd1 (s : State) (sender : Addr) (cp tokD : Denom) (a minL : Nat) (deadl
 
 /-- `removeLiquidity`: burn the shares (via the module account), pay both coins from the pool -/
 def removeLiq (s : State) (sender : Addr) (n : Nat) (cp : Denom) (w x y : Nat) : R :=
-  match s.bank.burn sender (lptDenom n) w with
-  | none => rej "sdk/5"
-  | some b1 =>
+  match burnCk s.bank sender (lptDenom n) w with
+  | .error e => .error e
+  | .ok b1 =>
     match b1.send (poolAddr n) sender s.std x with
     | none => rej "sdk/5"
     | some b2 =>
@@ -348,9 +355,9 @@ def stepRem1 (s : State) (sender : Addr) (cp minD : Denom) (minA w : Nat) (deadl
       else if s.bank.balOf (poolAddr n) minD < minA then rej "coinswap/9"
       else if ¬ rem1Fits (s.bank.balOf (poolAddr n) minD) (shares s n) w (D - s.params.ufee) then pnc "int overflow"
       else if rem1Out (s.bank.balOf (poolAddr n) minD) (shares s n) w (D - s.params.ufee) < minA then rej "coinswap/8"
-      else match s.bank.burn sender (lptDenom n) w with
-        | none => rej "sdk/5"
-        | some b1 =>
+      else match burnCk s.bank sender (lptDenom n) w with
+        | .error e => .error e
+        | .ok b1 =>
           match b1.send (poolAddr n) sender minD (rem1Out (s.bank.balOf (poolAddr n) minD) (shares s n) w (D - s.params.ufee)) with
           | none => rej "sdk/5"
           | some b2 =>
